@@ -861,3 +861,88 @@ Section Scan.
   Qed.
 End Scan.
 Print Assumptions subst_line_ok.
+
+(* ------------------------------------------------------------------ the hypothesis find_oracle is satisfiable for every matcher *)
+(* an oracle made from a model matcher: it decodes the rest of the line from the memory, asks the matcher, and writes the
+   32 ints into offs (on failure offs is left as it is) *)
+Definition unpairs (offs : list grp) : list Z := flat_map (fun g => [fst g; snd g]) offs.
+Definition ext_find (find : bytes -> bool -> option (list grp)) : nat -> list val -> mem -> res (val * mem) :=
+  fun f args m =>
+    if Nat.eqb f X_rstr_find then
+      match args with
+      | [_; VPtr b o; _; VPtr bo _; VInt flg] =>
+          match nth_error m b, nth_error m bo with
+          | Some blk, Some oblk =>
+              match find (map byte_of (cells_to_nul (skipn (Z.to_nat o) blk))) (flg =? 2) with
+              | Some offs => Ok (VInt 0, upd m bo (map VInt (unpairs offs)))
+              | None => Ok (VInt (-1), upd m bo oblk)
+              end
+          | _, _ => Err EOob
+          end
+      | _ => Err EShape
+      end
+    else Err EShape.
+Lemma cells_to_nul_cstr (t : bytes) : nonul t -> cells_to_nul (cstr_block (zb t)) = zb t.
+Proof.
+  unfold cstr_block, zb. induction 1 as [|x t Hx Ht IH]; [reflexivity|]. cbn [map app cells_to_nul].
+  destruct Hx as [Hx0 _]. destruct x; [lia|]. cbn [Z.of_N]. f_equal. exact IH.
+Qed.
+Lemma pairs_unpairs offs : pairs (unpairs offs) = offs.
+Proof. induction offs as [|[a b] r IH]; [reflexivity|]. cbn [unpairs flat_map app pairs fst snd]. f_equal. exact IH. Qed.
+(* a matcher that answers with sixteen pairs of ints *)
+Definition find_wf16 (find : bytes -> bool -> option (list grp)) : Prop :=
+  forall ln nb offs, find ln nb = Some offs -> length offs = 16%nat /\ ints_ok (unpairs offs).
+Lemma ext_find_oracle find bl bo rb rz line : nonul line -> find_wf16 find -> find_oracle (ext_find find) find bl bo rb rz line.
+Proof.
+  intros Hn Hw m o nb blk Hs Ho Hb Hl. unfold ext_find. rewrite Nat.eqb_refl, Hs, Hb, Nat2Z.id, skipn_cstr_block by exact Ho.
+  rewrite cells_to_nul_cstr by (apply Forall_skipn'; exact Hn).
+  rewrite byte_of_zb by (apply nonul_lt256; apply Forall_skipn'; exact Hn).
+  replace ((if nb then 2 else 0) =? 2) with nb by (destruct nb; reflexivity).
+  destruct (find (skipn o line) nb) as [offs|] eqn:Ef.
+  - destruct (Hw _ _ _ Ef) as [L I]. exists 0, (map VInt (unpairs offs)). split; [reflexivity|]. split.
+    + rewrite map_length. unfold unpairs. clear -L. do 17 (destruct offs as [|[? ?] offs]; [try discriminate; try reflexivity|]). discriminate.
+    + split; [lia|]. exists (unpairs offs). split; [reflexivity|]. split; [exact I|symmetry; apply pairs_unpairs].
+  - exists (-1), blk. split; [reflexivity|]. split; [exact Hl|lia].
+Qed.
+
+(* running the translated loop (and sbuf_str, sbuf_buf) under the oracle made from a matcher: the memory is the program's
+   globals with xrep := rep, then the line, offs[32] (indeterminate), the cell of `s`, the flags *)
+Definition sl_run (find : bytes -> bool -> option (list grp)) (rep flags line : bytes) (fuel : nat) : res (option (list N)) :=
+  let n := length cglobals in
+  let m := upd cglobals G_xrep (cstr_block (zb rep)) ++ [cstr_block (zb line); repeat VUndef 32; [VPtr (n + 3) 0]; cstr_block (zb flags)] in
+  let st := mkst [VInt 0; VInt 0; VInt 0; VInt 0; VPtr n 0; VPtr (n + 1) 0; VInt 0; VInt 0; VInt 0; VInt 0; VPtr (n + 2) 0; VInt 0;
+                  VPtr n 0; VInt 0; VUndef] m in
+  let call := callx (ext_find find) cprog fuel 8 in
+  match exec call fuel (SSeq es_while (SIf (ELocal 13) es_str SSkip)) st with
+  | ONormal st' =>
+      match nth_error (locals st') 13 with
+      | Some (VPtr p 0) =>
+          match call F_sbuf_buf [VPtr p 0] (memm st') with
+          | Ok (VPtr b 0, m3) => match nth_error m3 b with Some blk => Ok (Some (map byte_of (cells_to_nul blk))) | None => Err EShape end
+          | Ok _ => Err EShape
+          | Err e => Err e
+          end
+      | Some (VInt 0) => Ok None
+      | _ => Err EShape
+      end
+  | OErr e => Err e
+  | _ => Err EShape
+  end.
+(* the literal matcher for one byte: the first occurrence in the rest (below 1 GB, so that the offsets are ints), sixteen pairs *)
+Definition find_byte1 (c : N) (ln : bytes) (nb : bool) : option (list grp) :=
+  match find_byte c ln with
+  | Some i => if Z.of_nat i <? 1000000000 then Some ((Z.of_nat i, Z.of_nat i + 1) :: repeat unset 15) else None
+  | None => None
+  end.
+(* the empty match in front of the first occurrence of one byte *)
+Definition find_before (c : N) (ln : bytes) (nb : bool) : option (list grp) :=
+  match find_byte c ln with
+  | Some i => if Z.of_nat i <? 1000000000 then Some ((Z.of_nat i, Z.of_nat i) :: repeat unset 15) else None
+  | None => None
+  end.
+Lemma find_byte1_wf16 c : find_wf16 (find_byte1 c).
+Proof.
+  intros ln nb offs H. unfold find_byte1 in H. destruct (find_byte c ln) as [i|]; [|discriminate].
+  destruct (Z.ltb_spec (Z.of_nat i) 1000000000); [|discriminate]. injection H as <-.
+  split; [reflexivity|]. unfold unpairs. cbn [flat_map repeat app fst snd unset]. repeat constructor; lia.
+Qed.
